@@ -29,7 +29,7 @@ func (f *{{.FieldType}}) Read(r io.ReadSeeker, pg parquet.Page) error {
 	}
 
 	v := make([]{{.TypeName}}, int(pg.N))
-	err = binary.Read(rr, binary.LittleEndian, &v)
+	err = binary.Read(rr, binary.LittleEndian, v)
 	f.vals = append(f.vals, v...)
 	return err
 }
